@@ -148,6 +148,8 @@ pub struct Handle {
     pub send_done: bool,
     /// harness view: poll_data has returned None or an error
     pub recv_done: bool,
+    /// `ResponseFuture::push_promises` was called once (a second call is an API-misuse panic)
+    pub pushes_taken: bool,
 }
 
 /// byte at offset `off` of the body sent on the stream whose wire id is `sid` by `who` (0 = the
@@ -558,6 +560,8 @@ impl Driver {
                 std::thread::sleep(Duration::from_millis(op["ms"].as_u64().unwrap_or(1)));
                 json!("slept")
             }
+            // marker op of the generator's tear-down phase (no effect on the endpoint)
+            "teardown" => json!("mark"),
             "drop_conn" => {
                 match &mut self.ep {
                     Endpoint::Client { conn, .. } => { conn.take(); }
@@ -670,10 +674,22 @@ impl Driver {
                 if let Some(hd) = self.handles.get_mut(h) { hd.resp.take(); }
                 json!("dropped")
             }
+            "drop_pushes" => {
+                if let Some(hd) = self.handles.get_mut(h) { hd.pushes.take(); }
+                json!("dropped")
+            }
+            "drop_pushed_response" => {
+                if let Some(hd) = self.handles.get_mut(h) { hd.pushed_resp.take(); }
+                json!("dropped")
+            }
             "push_promises" => {
                 let hd = match self.handles.get_mut(h) { Some(x) => x, None => return json!("no-handle") };
+                if hd.pushes_taken {
+                    return json!("already-taken");
+                }
                 if let Some(r) = hd.resp.as_mut() {
                     hd.pushes = Some(r.push_promises());
+                    hd.pushes_taken = true;
                     return json!("ok");
                 }
                 json!("no-handle")
